@@ -158,14 +158,7 @@ def run(scn, clauses=None):
         except SimHang as e:
             state['stop'] = e
         finally:
-            # no finaliser may run against a dead world: detach the transport explicitly
-            apt = getattr(child, 'async_pw_transport', None)
-            if apt:
-                try:
-                    apt[1]._pipe = None
-                    apt[1]._closing = True
-                except Exception:
-                    pass
+            loop.detach_all()
             try:
                 loop.close()
             except Exception:
